@@ -13,8 +13,13 @@ export CARGO_TARGET_DIR=/tmp/sv/target CARGO_NET_OFFLINE=true
 FEAT=""; [ "$MODE" = stress ] && FEAT="--features laythe_vm/gc_stress"; [ "$MODE" = nan ] && FEAT="--features laythe_vm/nan_boxing"
 BIN=/tmp/sv/target/debug/laythe
 run_demo() { # label
-  for f in $SEED/*.lay; do :; done
-  ( cd $SEED && timeout 60 $BIN demo.lay > /tmp/sv/$NAME.$1.out 2>&1; echo "exit=$?" >> /tmp/sv/$NAME.$1.out )
+  : > /tmp/sv/$NAME.$1.out
+  if [ -f $SEED/demo.lay ]; then ( cd $SEED && ulimit -v 400000 && timeout 120 $BIN demo.lay >> /tmp/sv/$NAME.$1.out 2>&1; echo "exit=$?" >> /tmp/sv/$NAME.$1.out ); fi
+  if [ -f $SEED/seed_demo.rs ]; then
+    mkdir -p $WT/laythe_core/tests && cp $SEED/seed_demo.rs $WT/laythe_core/tests/seed_demo.rs
+    ( cd $WT && cargo test --offline -p laythe_core --test seed_demo 2>&1 | grep -E "^test |test result|panicked" | sed 's/finished in .*//' >> /tmp/sv/$NAME.$1.out )
+    rm -rf $WT/laythe_core/tests
+  fi
 }
 echo "== clean build ($MODE)"; cargo build --offline -p laythe $FEAT 2>&1 | tail -1
 cp $BIN /tmp/sv/$NAME.clean.bin; BIN=/tmp/sv/$NAME.clean.bin run_demo clean
